@@ -336,6 +336,11 @@ class SxSet:
         return 'SxSet(%r)' % (list(self._d) + self._lazy,)
 
 
+import collections.abc as _abc  # noqa: E402
+_abc.MutableMapping.register(SxDict)
+_abc.MutableSet.register(SxSet)
+
+
 def sx_dict_literal(pairs):
     d = SxDict()
     for k, v in pairs:
@@ -381,6 +386,8 @@ class SxFloatType(metaclass=_ShimMeta):
             return x
         if _isinstance(x, SxInt) and x.z is not None:
             return SxReal(z3.ToReal(x.iterm()))
+        if type(x).__name__ == 'FloatTok':
+            return x
         return builtins.float(x)
 
     @staticmethod
